@@ -47,6 +47,12 @@ class histosys_builder:
             if defined_samp
             else [0.0] * self.config.channel_nbins[channel]
         )
+        if thismod and not (
+            len(thismod['data']['lo_data']) == len(thismod['data']['hi_data']) == len(nom)
+        ):
+            raise InvalidModifier(
+                f"The '{sample}' sample modifier '{key}' in channel '{channel}' has 'lo_data' of length {len(thismod['data']['lo_data'])} and 'hi_data' of length {len(thismod['data']['hi_data'])} but the sample has {len(nom)} bins."
+            )
         moddata = self.collect(thismod, nom)
         self.builder_data[key][sample]['data']['lo_data'].append(moddata['lo_data'])
         self.builder_data[key][sample]['data']['hi_data'].append(moddata['hi_data'])
